@@ -6,6 +6,7 @@ import (
 	"context"
 	"errors"
 	"fmt"
+	"github.com/failsafe-go/failsafe-go/cachepolicy"
 	"time"
 
 	"github.com/failsafe-go/failsafe-go"
@@ -22,6 +23,7 @@ type ExeSpec struct {
 	CancelAt    time.Duration // instant at which the canceller thread fires / the deadline
 	CancelAsync bool          // cancel through ExecutionResult.Cancel() at CancelAt
 	Sub         []int         // indices of the stack's policies this execution uses (nil = all)
+	CacheKey    any           // non-nil: supplied through the context as cachepolicy.CacheKey
 }
 
 func (e ExeSpec) String() string {
@@ -34,6 +36,9 @@ func (e ExeSpec) String() string {
 	}
 	if e.Ctx != "" {
 		s += fmt.Sprintf(" ctx-%s@%d", e.Ctx, int64(e.CancelAt))
+	}
+	if e.CacheKey != nil {
+		s += fmt.Sprintf(" key=%#v", e.CacheKey)
 	}
 	if e.CancelAsync {
 		s += fmt.Sprintf(" Cancel()@%d", int64(e.CancelAt))
@@ -93,9 +98,16 @@ func multiBody(stack []Spec, exes []ExeSpec, o MultiOpts) func() {
 					ex = ex.WithContext(context.WithValue(context.Background(), exeKeyT{}, x.ID))
 					ex = ex.OnDone(env.doneEv(-1, "done")).OnSuccess(env.doneEv(-1, "success")).OnFailure(env.doneEv(-1, "failure"))
 				}
+				base := context.Background()
+				if es.CacheKey != nil {
+					base = context.WithValue(base, cachepolicy.CacheKey, es.CacheKey)
+					if es.Ctx == "" {
+						ex = ex.WithContext(base)
+					}
+				}
 				switch es.Ctx {
 				case "cancel":
-					ctx, cancel := vcontext.WithCancel(context.Background())
+					ctx, cancel := vcontext.WithCancel(base)
 					x.Ctx = ctx
 					ex = ex.WithContext(ctx)
 					wg.Add(1)
@@ -109,7 +121,7 @@ func multiBody(stack []Spec, exes []ExeSpec, o MultiOpts) func() {
 						x.CancelTick1 = env.Tick
 					})
 				case "cancelcause":
-					ctx, cancel := vcontext.WithCancelCause(context.Background())
+					ctx, cancel := vcontext.WithCancelCause(base)
 					x.Ctx = ctx
 					ex = ex.WithContext(ctx)
 					wg.Add(1)
@@ -123,12 +135,12 @@ func multiBody(stack []Spec, exes []ExeSpec, o MultiOpts) func() {
 						x.CancelTick1 = env.Tick
 					})
 				case "deadlinecause":
-					ctx, cancel := vcontext.WithDeadlineCause(context.Background(), time.Unix(0, vrt.Now()).Add(es.CancelAt-es.StartAt), errCustomCause)
+					ctx, cancel := vcontext.WithDeadlineCause(base, time.Unix(0, vrt.Now()).Add(es.CancelAt-es.StartAt), errCustomCause)
 					defer cancel()
 					x.Ctx = ctx
 					ex = ex.WithContext(ctx)
 				case "deadline":
-					ctx, cancel := vcontext.WithDeadline(context.Background(), time.Unix(0, vrt.Now()).Add(es.CancelAt-es.StartAt))
+					ctx, cancel := vcontext.WithDeadline(base, time.Unix(0, vrt.Now()).Add(es.CancelAt-es.StartAt))
 					defer cancel()
 					x.Ctx = ctx
 					ex = ex.WithContext(ctx)
